@@ -11,6 +11,7 @@ struct RunOpts {
         long max_svc = 200000;  // hard bound on service calls per run
         bool coverage = true;
         bool liveness = true;   // check the linear step bound in the final drain
+        bool keep_going = false; // execute the whole plan even after a violation (twin runs compare complete outputs)
         std::vector<bytes> override_init; // C08 twin: replacement initial contents, flattened (cmd,var) order; empty = plan's
 };
 
